@@ -125,6 +125,8 @@ def case_labels(case, leaves, n):
         out.add("ctrl-dict")
     if case.get("ctrl"):
         out.add("ctrl-" + case["ctrl"]["kind"])
+        if any(g["n"] == "CMEASURE" and g.get("d") is not None for g in recs):
+            out.add("circuit-control+dictionary-gate")      # both styles in one circuit: the gate's dictionary wins for that gate
     dd = H.dict_depth(gs)
     if dd:
         out.add(f"dict-depth={dd}")
@@ -163,7 +165,18 @@ def iv(init):
     return None if init is None else init.copy()
 
 
-WATCHDOG = {"limit": 240.0}
+# Watchdog against non-termination.  Every generated program terminates by construction (the reference bounds the number
+# of measurements per shot before Tangelo is called), so a Tangelo call that executes control programs and is still
+# running after the limit has selected gates other than those the outcomes select (e.g. a control that keeps re-inserting
+# measurements).  "sim": limit of the first trip for simulations, "syn": for generate_applied_gates (no simulation, ms
+# scale); after the first trip of a part all limits drop to "after" so that shrinking stays cheap, and after MAX_TRIPS
+# trips the remaining (shrink) candidates are not evaluated any more.  This is not a per-case time budget.
+WATCHDOG = {"sim": 60.0, "syn": 20.0, "after": 1.5, "trips": 0}
+MAX_TRIPS = 25
+
+
+def watchdog_reset():
+    WATCHDOG["trips"] = 0
 
 
 class _NoTermination(BaseException):
@@ -174,22 +187,44 @@ def _alarm(signum, frame):
     raise _NoTermination()
 
 
-def sim(be, *a, **kw):
-    """be.simulate under a watchdog: every generated program terminates by construction (the reference bounds the number of
-    measurements per shot before the call is made), so a simulation that is still running after minutes is a shot loop
-    that selected gates other than those the outcomes select.  After the first trip the limit drops to a few seconds so
-    that shrinking stays cheap.  This is a guard against non-termination, not a per-case time budget."""
-    import signal
+def guarded(kind, what, fn, *a, **kw):
+    """fn(*a, **kw) under the watchdog.  Nests inside an outer ITIMER_REAL guard (vlib.runner's per-case guard): the
+    outer timer's remaining time is saved and re-armed on exit; if the outer timer would fire first it is left alone."""
+    import signal, time
+    limit = WATCHDOG["after"] if WATCHDOG["trips"] else WATCHDOG[kind]
+    outer_left, outer_interval = signal.getitimer(signal.ITIMER_REAL)
+    if 0 < outer_left <= limit:
+        return fn(*a, **kw)
+    t0 = time.monotonic()
     old = signal.signal(signal.SIGALRM, _alarm)
-    signal.setitimer(signal.ITIMER_REAL, WATCHDOG["limit"])
+    signal.setitimer(signal.ITIMER_REAL, limit)
     try:
-        return _sim(be, *a, **kw)
+        return fn(*a, **kw)
     except _NoTermination:
-        WATCHDOG["limit"] = 5.0
-        raise Fail("simulation did not terminate (watchdog)", sig="no-termination")
+        WATCHDOG["trips"] += 1
+        raise Fail(f"{what} did not terminate within {limit} s (watchdog): the control programs of the case are finite",
+                   sig=f"{what}:no-termination")
     finally:
         signal.setitimer(signal.ITIMER_REAL, 0)
         signal.signal(signal.SIGALRM, old)
+        if outer_left > 0:
+            signal.setitimer(signal.ITIMER_REAL, max(outer_left - (time.monotonic() - t0), 0.05), outer_interval)
+
+
+def tripped_out():
+    """True once the watchdog has fired MAX_TRIPS times in this part: the search is in its shrink phase on a
+    non-terminating case, further candidates are skipped so that the run finishes."""
+    return WATCHDOG["trips"] >= MAX_TRIPS
+
+
+def sim(be, *a, **kw):
+    return guarded("sim", "simulate", _sim, be, *a, **kw)
+
+
+def applied_gates_of(circ, **kw):
+    """tangelo.linq.generate_applied_gates under the watchdog (it executes the control programs too)."""
+    from tangelo.linq import generate_applied_gates
+    return guarded("syn", "generate_applied_gates", generate_applied_gates, circ, **kw)
 
 
 def _sim(be, *a, **kw):
@@ -283,7 +318,7 @@ def collapse_fn(ctx):
 
 @part("meas_exact", quick=220, thorough=9000)
 def meas_exact(ctx):
-    WATCHDOG["limit"] = 240.0
+    watchdog_reset()
     mw, mu, mm = (4, 10, 4) if ctx.tier == "quick" else (4, 14, 5)
 
     @st.composite
@@ -353,7 +388,7 @@ def meas_exact(ctx):
 
 @part("meas_sampled", quick=140, thorough=5000)
 def meas_sampled(ctx):
-    WATCHDOG["limit"] = 240.0
+    watchdog_reset()
     mw, mu, mm = (4, 8, 3) if ctx.tier == "quick" else (4, 12, 4)
 
     @st.composite
@@ -490,8 +525,7 @@ def cm_bounds(tier):
 
 @part("cmeas_exact", quick=260, thorough=10000)
 def cmeas_exact(ctx):
-    WATCHDOG["limit"] = 240.0
-    from tangelo.linq import generate_applied_gates
+    watchdog_reset()
     mw, mu, mm, dp, cap, mp = cm_bounds(ctx.tier)
 
     @st.composite
@@ -502,6 +536,8 @@ def cmeas_exact(ctx):
         return c
 
     def body(case):
+        if tripped_out():
+            return False, ("not-run:after-watchdog-trips",)
         n, init, leaves = prepare(case, cap)
         circ = H.build_circuit(case)
         if circ.width != n:
@@ -515,7 +551,7 @@ def cmeas_exact(ctx):
         for l in alive:
             b = l["b"]
             # the gates selected by these outcomes, without simulation
-            check_trace(generate_applied_gates(circ, desired_meas_result=b), l, "cmeas:generate_applied_gates", "generate_applied_gates")
+            check_trace(applied_gates_of(circ, desired_meas_result=b), l, "cmeas:generate_applied_gates", "generate_applied_gates")
             nlog = len(ctrl_obj.log) if is_cls else 0
             try:
                 f, sv = sim(be, circ, desired_meas_result=b, return_statevector=case["rsv"], initial_statevector=iv(init),
@@ -565,7 +601,7 @@ def cmeas_exact(ctx):
         if not (case.get("ctrl") and case["ctrl"]["kind"] == "func_rus"):
             ones = H.walk(case, 0, script="1" * 64, quantum=False)[0]
             if ones["status"] == "alive":
-                check_trace(generate_applied_gates(circ), ones, "cmeas:generate_applied_gates:default", "generate_applied_gates(default outcomes)")
+                check_trace(applied_gates_of(circ), ones, "cmeas:generate_applied_gates:default", "generate_applied_gates(default outcomes)")
         return any(l["nontrivial"] for l in leaves), case_labels(case, leaves, n) | {f"rsv={case['rsv']}"}
 
     ctx.search("cmeas_exact", cases(), body,
@@ -578,7 +614,7 @@ def cmeas_exact(ctx):
 
 @part("cmeas_sampled", quick=120, thorough=4000)
 def cmeas_sampled(ctx):
-    WATCHDOG["limit"] = 240.0
+    watchdog_reset()
     mw, mu, mm, dp, cap, mp = cm_bounds(ctx.tier)
     cap = cap + 4
 
@@ -592,6 +628,8 @@ def cmeas_sampled(ctx):
         return c
 
     def body(case):
+        if tripped_out():
+            return False, ("not-run:after-watchdog-trips",)
         n, init, leaves = prepare(case, cap)
         N, mode = case["shots"], case["mode"]
         alive = [l for l in leaves if l["status"] == "alive"]
